@@ -81,6 +81,12 @@ def check_bin(ip, c):
                 bad.append(("binImgs:block-sum:%s" % name, dict(dtype=str(np.dtype(dtype)), got=None if got is None else np.asarray(got).tolist())))
             elif np.asarray(got).sum() != keep.sum():
                 bad.append(("binImgs:flux:%s" % name, {}))
+            elif not np.array_equal(data, keep):
+                bad.append(("binImgs:input-modified:%s" % name, dict(dtype=str(np.dtype(dtype)))))
+            else:
+                again = ip.binImgs(data, n)              # the same stack binned a second time
+                if not np.array_equal(np.asarray(again), want):
+                    bad.append(("binImgs:block-sum:second-call-on-same-array:%s" % name, {}))
     # a bad pixel (nan, inf) spoils the block that contains it and no other: every output block is a function of its own pixels
     cells = [cell for row in c["out"] for cell in row]
     for poison in (np.nan, np.inf):
